@@ -39,10 +39,11 @@ PID = "C06"
 class NModel:
     """nonlinear / linear model for stacked-time checks"""
 
-    def __init__(self, name, tvars, eqs, params, init, shocks, logvars=(), linear=False, backward=False, xvars=()):
+    def __init__(self, name, tvars, eqs, params, init, shocks, logvars=(), linear=False, backward=False, xvars=(), loglinear=False):
         self.name, self.tvars, self.eqs, self.params, self.init, self.shocks = name, tuple(tvars), tuple(eqs), dict(params), dict(init), tuple(shocks)
         self.logvars, self.linear, self.backward = tuple(logvars), linear, backward
         self.xvars = tuple(xvars)        # exogenous variables: their whole path is an input
+        self.loglinear = loglinear       # exactly log-linear: compared with the first-order simulation in logs
 
     def source(self):
         s = "!transition-variables\n    " + ", ".join(self.tvars) + "\n!transition-shocks\n    " + ", ".join(self.shocks) + "\n"
@@ -70,6 +71,11 @@ def models():
     M.append(NModel("lin_lead2", ("q", "s"),
                     ("q = 0.25*q[+2] + 0.25*q[-1] + 0.5*s + 0.3 + eq", "s = 0.5*s[-2] + 0.25*s[-1] + 0.1 + es"),
                     dict(), dict(q=1.0, s=0.4), ("eq", "es"), linear=True))
+    # an exactly LOG-LINEAR model (log-variables, a lead, a lag of two): its first-order solution is exact in logs, so the stacked-time path
+    # must coincide with the first-order simulation in logs; the first-order terminal condition reads the lag-2 element of a log-variable
+    M.append(NModel("loglin_lag2", ("q", "s"),
+                    ("q = q[+1]^0.25 * q[-1]^0.25 * q[-2]^0.125 * s^0.375 * exp(eq)", "s = s[-1]^0.5 * exp(0.5*lc + es)"),
+                    dict(lc=0.1823215567939546), dict(q=1.2, s=1.2), ("eq", "es"), logvars=("q", "s"), loglinear=True))
     # a linear model with an EXOGENOUS variable whose path is an input like the shocks
     M.append(NModel("lin_exog", ("x", "y"),
                     ("x = rho*x[-1] + gam*w + e", "y = 0.5*y[+1] + 0.3*x + u"),
@@ -413,6 +419,41 @@ def check_equations(run, ir, nm, m, method, terminal, nsim, unant, ant, plan_spe
     run.ok(key)
 
 
+def _monomial_sign(t):
+    """+1 / -1 / None for a product of EXP applications and numeric constants"""
+    t = z3.simplify(t)
+    if z3.is_rational_value(t):
+        v = Fraction(t.numerator_as_long(), t.denominator_as_long())
+        return 1 if v > 0 else (-1 if v < 0 else None)
+    if z3.is_app(t) and t.decl().eq(S.EXP):
+        return 1
+    if z3.is_mul(t):
+        sg = 1
+        for ch_ in t.children():
+            c_ = _monomial_sign(ch_)
+            if c_ is None:
+                return None
+            sg *= c_
+        return sg
+    return None
+
+
+def _log_form(eq_):
+    """(p - n == 0) with positive monomials p, n  ->  log p == log n ; None when the equation has another shape"""
+    if not z3.is_eq(eq_):
+        return None
+    lhs, rhs = eq_.arg(0), eq_.arg(1)
+    x = z3.simplify(lhs - rhs) if not (z3.is_rational_value(rhs) and rhs.numerator_as_long() == 0) else lhs
+    if not (z3.is_add(x) and len(x.children()) == 2):
+        return None
+    a_, b_ = x.children()
+    sa, sb = _monomial_sign(a_), _monomial_sign(b_)
+    if sa is None or sb is None or sa * sb != -1:
+        return None
+    pos, neg = (a_, b_) if sa > 0 else (b_, a_)
+    return S.mk_log(pos) == S.mk_log(z3.simplify(-1 * neg))
+
+
 def check_matches_first_order(run, ir, nm, m, method, nsim, unant, ant):
     key = f"first_order_match:{nm.name}:{method}:nsim={nsim}:unant={unant}:ant={ant}"
     case = dict(kind="match", model=nm.name, method=method, nsim=nsim, unant=list(unant), ant=list(ant))
@@ -440,12 +481,46 @@ def check_matches_first_order(run, ir, nm, m, method, nsim, unant, ant):
             if a is None:
                 run.counterexample(key, f"stacked:match:{nm.name}", f"{n}[{k}] was not computed by the stacked-time simulation", dict(case, what="missing"))
                 return
-            claims.append((f"{n}@{k}", S.const(a).t - S.const(b).t))
+            if n in nm.logvars:
+                claims.append((f"log {n}@{k}", S.mk_log(S.const(a).t) - S.mk_log(S.const(b).t)))       # log-variables are compared in logs
+            else:
+                claims.append((f"{n}@{k}", S.const(a).t - S.const(b).t))
     syms = dict(L.syms)
     syms.update(capf["syms"])
-    box = [z3.And(s.t >= -1, s.t <= 1) for n, s in syms.items() if n not in nm.params]
+    box = [z3.And(s.t >= -1, s.t <= 1) if n.split("__")[0] not in nm.logvars else z3.And(s.t >= Fraction(1, 2), s.t <= 2) for n, s in syms.items() if n not in nm.params]
     # parameters are concrete in this obligation (the model is linear in variables for FIXED parameters)
     assume = box + L.assume + [path.condition(), pathf.condition()]
+    if nm.logvars:
+        # EXP/LOG are uninterpreted: the contract EXP(g) = EXP(affine) must give g = affine, so EXP is declared injective on the applications that
+        # occur, and LOG(symbol) is given the range its symbol's domain [1/2, 2] implies
+        apps, logs, seen = [], [], set()
+
+        def walk(t):
+            if t.get_id() in seen:
+                return
+            seen.add(t.get_id())
+            if z3.is_app(t):
+                if t.decl().eq(S.EXP):
+                    apps.append(t)
+                elif t.decl().eq(S.LOG) and z3.is_const(t.arg(0)):
+                    logs.append(t)
+                for ch_ in t.children():
+                    walk(ch_)
+        for t in [c for _, c in claims] + list(L.assume):
+            walk(t)
+        assume += [a_ > 0 for a_ in apps]
+        assume += [z3.And(l_ >= -Fraction(7, 10), l_ <= Fraction(7, 10)) for l_ in logs]
+        # every contract equation of a log-linear model is  monomial - monomial == 0  with positive monomials (products of EXP(.) and positive
+        # constants): it is restated in logs, log(monomial) == log(monomial), which is linear in the unknowns (sound: both sides are positive)
+        logged = []
+        for eq_ in L.assume:
+            lf = _log_form(eq_)
+            if lf is not None:
+                logged.append(lf)
+        if len(logged) != len(L.assume):
+            run.unknown(key, f"{len(L.assume) - len(logged)} contract equations are not of the form monomial == monomial")
+            return
+        assume += logged
     r0, _ = run.check_sat(assume, timeout_ms=60000)
     if r0 != "sat":
         run.unknown(key, f"reachability witness {r0}")
@@ -526,7 +601,7 @@ def main(run):
                 run.unknown(f"equations:{nm.name}:period_by_period", exc)
             except Exception as exc:
                 run.error(f"equations:{nm.name}:period_by_period", exc)
-        if nm.linear:
+        if nm.linear or nm.loglinear:
             for method in (("stacked_time", "period_by_period") if nm.backward else ("stacked_time",)):
                 for (nsim, unant, ant) in ((3, (0,), (1,)), (3, (0, 1), ()), (4, (0, 2), (1, 3)), (4, (1, 3), (2,))):
                     if (method == "period_by_period" and ant) or (quick and nsim > 3):
